@@ -42,6 +42,10 @@ type HarnessSpec struct {
 	Note      string         `json:"note"`
 	// UF lists functions (by go/ssa full name) replaced by uninterpreted functions of their scalar/big.Int arguments.
 	UF        []string       `json:"uf"`
+	// Summaries: calls of a function (go/ssa full name) are redirected to a fork-free
+	// reference function "import/path.Name" with the same signature, which another
+	// harness of the same property proves equal to the real function (assume-guarantee).
+	Summaries map[string]string `json:"summaries"`
 	ufSet     map[string]bool
 	mapPerm   func(p *Path, es []*MapEntry) []*MapEntry
 }
